@@ -65,8 +65,14 @@ class Models:
                 self.note('oracle Tq(p, dof) := <StudentsT as ContinuousCDF>::inverse_cdf (uninterpreted; axioms stated per obligation)')
                 dof = dist[3][2][1] if dist[0] == 'adt' and dist[1] == 'StudentsT' else T.var('dof?', 'f')
                 return one(('f', T.mk('app', 'Tq', p, dof)))
-            self.note('oracle Zq(p) := <Normal as ContinuousCDF>::inverse_cdf (uninterpreted; axioms stated per obligation)')
-            return one(('f', T.mk('app', 'Zq', p)))
+            if 'Normal' in c:
+                self.note('oracle Zq(p) := <Normal as ContinuousCDF>::inverse_cdf (uninterpreted; axioms stated per obligation)')
+                return one(('f', T.mk('app', 'Zq', p)))
+            # any other distribution: an uninterpreted function of its parameters and p (NOT the documented oracle)
+            params = [x[1] if x[0] == 'f' else T.mk('i2f', x[1]) for x in (dist[3] if dist[0] == 'adt' else []) if x[0] in ('f', 'i')]
+            name = 'ext_icdf_' + re.sub(r'\W+', '_', c.split(' as ')[0].strip('<'))[-24:]
+            self.note('external distribution %s: inverse_cdf uninterpreted' % c)
+            return one(('f', T.mk('app', name, p, *params)))
         if c.endswith('as Deref>::deref') and ('NORMAL' in c or 'z_value' in c):
             self.note('lazy_static NORMAL = Normal::new(0., 1.).unwrap()')
             return one(('adt', 'Normal', 0, [('f', T.fconst(0)), ('f', T.fconst(1))]))
